@@ -459,6 +459,191 @@ theorem specMatch_len_aux (lits : List String) :
 theorem specMatch_len {lits p d β} (h : specMatch lits p d = some β) :
     ∀ e ∈ β, e.2.length ≤ d.size := (specMatch_len_aux lits).1 p d β h
 
+/-! ## The ellipsis test of `transform`, and termination of `subst` for all templates -/
+
+/-- what `transform` does with the template of the rule that matched with table `σ`: a flagged
+sub-template that mentions no pattern variable is a syntax error (`UnexpectedTemplate`), else the
+template is filled -/
+def fill (fuel : Nat) (t : Tmpl) (σ : Subst) (loc : Loc) : Except SErr Datum :=
+  if ellipsisOk σ t then
+    match subst fuel t σ loc with
+    | some d => .ok d
+    | none => .error (.fuel, none)
+  else .error (.syntax, none)
+
+/-- one step of `transformRules` -/
+theorem transformRules_cons {fuel lits p t rest use} :
+    transformRules fuel lits ((p, t) :: rest) use =
+      match matchDatum fuel lits p use [] with
+      | .error e => .error e
+      | .ok (true, σ) => fill fuel t σ use.loc
+      | .ok (false, _) => transformRules fuel lits rest use := by
+  simp only [transformRules, bind, Except.bind, fill]
+  cases matchDatum fuel lits p use [] with
+  | error e => rfl
+  | ok r =>
+    obtain ⟨b, σ⟩ := r
+    cases b
+    · rfl
+    · cases he : ellipsisOk σ t
+      · simp [he]
+      · simp only [he, if_true, Bool.not_true, Bool.false_eq_true, if_false]
+        cases subst fuel t σ use.loc <;> rfl
+
+theorem mentionsVar_iff (σ : Subst) :
+    (∀ t, mentionsVar σ t = true ↔ ∃ v ∈ t.vars, v ∈ Subst.keys σ) ∧
+    (∀ es, mentionsVarElems σ es = true ↔ ∃ v ∈ Tmpl.varsElems es, v ∈ Subst.keys σ) := by
+  apply Tmpl.ind
+  · intro es ih; simpa [mentionsVar, Tmpl.vars] using ih
+  · intro es ih; simpa [mentionsVar, Tmpl.vars] using ih
+  · intro v; simp [mentionsVar, Tmpl.vars, Subst.get?_isSome_iff]
+  · intro p; simp [mentionsVar, Tmpl.vars]
+  · simp [mentionsVarElems, Tmpl.varsElems]
+  · intro t b rest iht ihr
+    simp only [mentionsVarElems, Tmpl.varsElems, Bool.or_eq_true, iht, ihr, List.mem_append]
+    constructor
+    · rintro (⟨v, h1, h2⟩ | ⟨v, h1, h2⟩)
+      · exact ⟨v, .inl h1, h2⟩
+      · exact ⟨v, .inr h1, h2⟩
+    · rintro ⟨v, h1 | h1, h2⟩
+      · exact .inl ⟨v, h1, h2⟩
+      · exact .inr ⟨v, h1, h2⟩
+
+/-- a template without flagged element passes the ellipsis test -/
+theorem ellipsisOk_of_flagFree (σ : Subst) :
+    (∀ t, t.flagFree = true → ellipsisOk σ t = true) ∧
+    (∀ es, Tmpl.flagFreeElems es = true → ellipsisOkElems σ es = true) := by
+  apply Tmpl.ind
+  · intro es ih h; simp only [Tmpl.flagFree] at h; simpa [ellipsisOk] using ih h
+  · intro es ih h; simp only [Tmpl.flagFree] at h; simpa [ellipsisOk] using ih h
+  · intro _ _; rfl
+  · intro _ _; rfl
+  · intro _; rfl
+  · intro t b rest iht ihr h
+    simp only [Tmpl.flagFreeElems, Bool.and_eq_true, Bool.not_eq_true'] at h
+    obtain ⟨⟨rfl, h2⟩, h3⟩ := h
+    simp [ellipsisOkElems, iht h2, ihr h3]
+
+/-- a well-formed template passes the ellipsis test of `transform` -/
+theorem ellipsisOk_of_wf (σ : Subst) :
+    (∀ t, t.wf (Subst.keys σ) = true → ellipsisOk σ t = true) ∧
+    (∀ es, Tmpl.wfElems (Subst.keys σ) es = true → ellipsisOkElems σ es = true) := by
+  apply Tmpl.ind
+  · intro es ih h; simp only [Tmpl.wf] at h; simpa [ellipsisOk] using ih h
+  · intro es ih h; simp only [Tmpl.wf] at h; simpa [ellipsisOk] using ih h
+  · intro _ _; rfl
+  · intro _ _; rfl
+  · intro _; rfl
+  · intro t b rest iht ihr h
+    cases b with
+    | false =>
+      simp only [Tmpl.wfElems, Bool.and_eq_true] at h
+      simp [ellipsisOkElems, iht h.1, ihr h.2]
+    | true =>
+      simp only [Tmpl.wfElems, Bool.and_eq_true, List.any_eq_true, List.contains_iff_mem] at h
+      obtain ⟨⟨hff, hb⟩, hr⟩ := h
+      have hm : mentionsVar σ t = true := ((mentionsVar_iff σ).1 t).2 hb
+      simp [ellipsisOkElems, hm, (ellipsisOk_of_flagFree σ).1 t hff, ihr hr]
+
+/-- no `i`-th further copy when some bound variable has no `i`-th further match — for ALL
+templates (the copies ignore nested ellipses) -/
+theorem substItem_none (σ : Subst) (loc : Loc) (i : Nat) :
+    (∀ t, ¬ Avail σ t.vars i → substItem t σ i loc = none) ∧
+    (∀ es, ¬ Avail σ (Tmpl.varsElems es) i → substItems es σ i loc = none) := by
+  apply Tmpl.ind
+  · intro es ih h; simp only [Tmpl.vars] at h; simp [substItem, ih h]
+  · intro es ih h; simp only [Tmpl.vars] at h; simp [substItem, ih h]
+  · intro v h
+    simp only [Tmpl.vars, Avail, List.mem_singleton, forall_eq] at h
+    simp only [substItem]
+    cases hg : σ.get? v with
+    | none => simp [hg] at h
+    | some x =>
+      obtain ⟨f, more⟩ := x
+      simp only [hg, Option.some.injEq, forall_eq'] at h
+      simp only
+      cases hm : more.isEmpty
+      · simp only [Bool.false_eq_true, if_false, List.getElem?_eq_none_iff]; omega
+      · simp
+  · intro p h; exact absurd (fun v hv => by simp [Tmpl.vars] at hv) h
+  · intro h; exact absurd (fun v hv => by simp [Tmpl.varsElems] at hv) h
+  · intro t b rest iht ihr h
+    simp only [Tmpl.varsElems, Avail.append] at h
+    simp only [substItems]
+    by_cases ha : Avail σ t.vars i
+    · have hb : ¬ Avail σ (Tmpl.varsElems rest) i := fun hb => h ⟨ha, hb⟩
+      rw [ihr hb]; cases substItem t σ i loc <;> rfl
+    · rw [iht ha]
+
+/-- the copy loop ends as soon as a bound variable runs out of further matches -/
+theorem substItemLoop_isSome {σ : Subst} {t : Tmpl} {loc : Loc} {v x}
+    (hv : v ∈ t.vars) (hx : σ.get? v = some x) :
+    ∀ k i fuel, x.2.length ≤ i + k → k < fuel → (substItemLoop fuel t σ i loc).isSome = true := by
+  intro k
+  induction k with
+  | zero =>
+    intro i fuel hk hfu
+    obtain ⟨n, rfl⟩ : ∃ n, fuel = n + 1 := ⟨fuel - 1, by omega⟩
+    have : ¬ Avail σ t.vars i := fun h => by have := h v hv x hx; omega
+    simp [substItemLoop, (substItem_none σ loc i).1 t this]
+  | succ k ih =>
+    intro i fuel hk hfu
+    obtain ⟨n, rfl⟩ : ∃ n, fuel = n + 1 := ⟨fuel - 1, by omega⟩
+    simp only [substItemLoop]
+    cases substItem t σ i loc with
+    | none => rfl
+    | some d =>
+      have := ih (i + 1) n (by omega) (by omega)
+      cases hl : substItemLoop n t σ (i + 1) loc with
+      | none => simp [hl] at this
+      | some ds => rfl
+
+/-- **`subst` terminates on every template that passes the ellipsis test**, with more fuel than
+the longest sequence of further matches in the table — no class hypothesis -/
+theorem subst_isSome (σ : Subst) (loc : Loc) (fuel : Nat)
+    (hfu : ∀ e ∈ σ, e.2.2.length < fuel) :
+    (∀ t, ellipsisOk σ t = true → (subst fuel t σ loc).isSome = true) ∧
+    (∀ es, ellipsisOkElems σ es = true → (substElems fuel es σ loc).isSome = true) := by
+  apply Tmpl.ind
+  · intro es ih h
+    simp only [ellipsisOk] at h
+    have := ih h
+    simp only [subst]
+    cases hs : substElems fuel es σ loc
+    · rw [hs] at this; cases this
+    · rfl
+  · intro es ih h
+    simp only [ellipsisOk] at h
+    have := ih h
+    simp only [subst]
+    cases hs : substElems fuel es σ loc
+    · rw [hs] at this; cases this
+    · rfl
+  · intro v _; simp only [subst]; cases σ.get? v <;> rfl
+  · intro p _; rfl
+  · intro _; rfl
+  · intro t b rest iht ihr h
+    simp only [ellipsisOkElems, Bool.and_eq_true, Bool.or_eq_true, Bool.not_eq_true'] at h
+    obtain ⟨⟨hflag, hok⟩, hrest⟩ := h
+    have h1 := iht hok
+    have h2 := ihr hrest
+    cases b with
+    | false =>
+      simp only [substElems]
+      cases hs : subst fuel t σ loc <;> cases hr : substElems fuel rest σ loc <;> simp_all
+    | true =>
+      have hm : mentionsVar σ t = true := by simpa using hflag
+      obtain ⟨v, hv, hk⟩ := ((mentionsVar_iff σ).1 t).1 hm
+      have hsome := Subst.get?_isSome_iff.2 hk
+      cases hg : σ.get? v with
+      | none => simp [hg] at hsome
+      | some x =>
+        have hlen := hfu (v, x) (Subst.get?_mem hg)
+        have h3 := substItemLoop_isSome (loc := loc) hv hg x.2.length 0 fuel (by omega) hlen
+        simp only [substElems]
+        cases hs : subst fuel t σ loc <;> cases hl : substItemLoop fuel t σ 0 loc <;>
+          cases hr : substElems fuel rest σ loc <;> simp_all
+
 /-! ## A supported rule: match, then fill -/
 
 /-- the table of a successful match of a supported rule's pattern fills the rule's template as
@@ -483,6 +668,22 @@ theorem subst_of_match {lits p t d β fuel loc} (hr : SupportedRule lits (p, t) 
     omega)).1 t (hk ▸ hwf)
   rw [this, Bindings.toBindings_toSubst hne, specInst]
 
+/-- after a successful match of a supported rule's pattern, the template passes the ellipsis
+test of `transform`: every ellipsis sub-template has a pattern variable, a key of the table -/
+theorem ellipsisOk_of_match {lits p t d β} (hr : SupportedRule lits (p, t) = true)
+    (hm : specMatch lits p d = some β) : ellipsisOk β.toSubst t = true := by
+  simp only [SupportedRule, SupportedTmpl, Bool.and_eq_true] at hr
+  have hwf := (Tmpl.ok_wf _ _).1 t hr.2
+  have hk : Subst.keys β.toSubst = p.vars lits := by
+    rw [Bindings.keys_toSubst, specMatch_keys hm]
+  exact (ellipsisOk_of_wf β.toSubst).1 t (hk ▸ hwf)
+
+/-- filling the template of a supported rule after a successful match -/
+theorem fill_of_match {lits p t d β fuel loc} (hr : SupportedRule lits (p, t) = true)
+    (hm : specMatch lits p d = some β) (hfu : d.size ≤ fuel) :
+    fill fuel t β.toSubst loc = .ok (specInst t β loc) := by
+  simp [fill, ellipsisOk_of_match hr hm, subst_of_match hr hm hfu]
+
 /-- **the expander refines the declarative expander** on supported rule sets -/
 theorem transformRules_eq_spec {lits fuel use} :
     ∀ rules : List (Pat × Tmpl), (∀ r ∈ rules, SupportedRule lits r = true) →
@@ -499,15 +700,15 @@ theorem transformRules_eq_spec {lits fuel use} :
     have hsp : Supported lits p = true := by
       simp only [SupportedRule, Bool.and_eq_true] at hr; exact hr.1
     have := matchDatum_eq_spec (n := fuel) (d := use) hsp hfr
-    simp only [transformRules, specTransform, bind, Except.bind]
+    rw [transformRules_cons]
+    simp only [specTransform]
     cases hm : specMatch lits p use with
     | some β =>
       simp only [hm] at this
       have hp := p.size_pos
       simp only at hfr
       rw [this]
-      simp only [if_true, subst_of_match hr hm (show use.size ≤ fuel by omega)]
-      rfl
+      simp only [fill_of_match hr hm (show use.size ≤ fuel by omega)]
     | none =>
       simp only [hm] at this
       obtain ⟨σ', h'⟩ := this
